@@ -139,6 +139,12 @@ func (g *Gen) baseImage(maxGroups int, spare int) (*Op, map[uint32][]uint32) {
 			if r.Chance(1, 6) {
 				di.Opts = append(di.Opts, DIOpt{Kind: "link", N: uint32(1 + r.Intn(3))})
 			}
+			if g.bigBlob && gi == 1 && k == 0 {
+				// an OCI blob of a megabyte or more (a layer): large enough for any size-dependent path
+				di = DI{DT: 0x400B, Fail: -1, Data: DataSpec{Gen: true, Len: 1<<20 + r.Intn(70000), Seed: r.U64()},
+					Opts: []DIOpt{{Kind: "group", N: label[gi]}}}
+				g.count("base:oci-blob-of-a-megabyte")
+			}
 			if len(dis) > 0 && r.Chance(1, 5) {
 				// byte-identical content to an earlier object (digest collisions by equality)
 				di.Data = dis[r.Intn(len(dis))].Data
@@ -872,10 +878,13 @@ func dropVanishedGroups(orig, now string) string {
 // C04: tamper evidence — byte-level modifications of a signed image.
 func scenC04(g *Gen, dir string) ([]*Op, func(e *Env, i int, op *Op, obs []string) *Violation) {
 	r := g.r
+	g.bigBlob = r.Chance(1, 25)
+	bigBlob := g.bigBlob
 	create, groups := g.baseImage(2, 4)
+	g.bigBlob = false
 	s := g.signKeys()
 	ops := []*Op{keysOp(), create}
-	subset := r.Chance(1, 5)
+	subset := r.Chance(1, 5) && !bigBlob
 	var v VOpts
 	if subset {
 		// only some objects are signed (one group, chosen objects of one or of several groups),
@@ -976,6 +985,9 @@ func scenC04(g *Gen, dir string) ([]*Op, func(e *Env, i int, op *Op, obs []strin
 		if r.Chance(2, 3) {
 			mode = 20 // a bit inside the content of an object
 		}
+	}
+	if bigBlob && !forge {
+		mode = 20
 	}
 	var orig protView
 	var verifiedIDs []uint32
@@ -1198,6 +1210,12 @@ func fillPatch(g *Gen, op *Op, b []byte) {
 		if len(blobs) > 0 && r.Chance(1, 2) {
 			t = pick(r, blobs)
 			g.count("tamper:oci-blob-content-bit")
+		}
+		for _, bl := range blobs {
+			if bl.size >= 1<<20 {
+				t = bl
+				g.count("tamper:megabyte-oci-blob-content-bit")
+			}
 		}
 		op.Sites = []PatchSite{flip(int(t.off) + r.Intn(int(t.size)))}
 		op.N = 1
